@@ -7,7 +7,8 @@
    of remove_ind / restore_ind (C06_history_invariant) and is re-checked on every real
    tree by the verified checker sl_ok_b (C06_checker_sound). *)
 From Coq Require Import Lia Permutation.
-From Ctg Require Import Base Slice BaseFacts SliceFacts SliceSum SliceGather.
+From Ctg Require Import Base Net Slice BaseFacts SliceFacts SliceSum SliceGather SliceEndToEnd.
+From Ctg Require Einsum TreeEval.
 
 (* get_slice_strides: strides[i] = product of the sizes after position i *)
 Theorem C06_strides_spec : forall sl i, i < length sl ->
@@ -231,4 +232,58 @@ Proof.
   - intros jp Hjp. vm_compute in Hjp. destruct Hjp as [<-|[<-|[]]]; vm_compute; lia.
   - intros i idx' Hi _. vm_compute in Hi.
     do 12 (destruct i as [|i]; [reflexivity|]). lia.
+Qed.
+
+(* END TO END (C06 composed with C01's run_root_correct).  Every slice is produced by C01's
+   contraction program Program.run_root on the arrays sliced at slice_key i (all_slices); the
+   network is well formed (output duplicate-free and carried by some input), the tree uses every
+   input exactly once, the slicing state satisfies the invariant.  Then gather_slices of the
+   slices is, entry by entry, the sum over the inner sliced ranges of the einsum of the SLICED
+   network ... *)
+Theorem C06_contract_sliced : forall n st arr ebase l r,
+  TreeEval.wf_net n -> TreeEval.full_tree n (Node l r) -> inv (output n) st ->
+  forall idx, length idx = length (output n) ->
+  (forall jp, In jp (output_pos (output n) (ss_sliced st)) ->
+     nth (snd jp) idx 0 < length (sliced_range (si_of (ss_sliced st) (fst jp)))) ->
+  tget (gather_slices (ss_sliced st) (output n) (all_slices n st arr ebase l r)) idx =
+  sum_keys (inns (ss_sliced st)) (epairs (full_pairs (output n) st idx) ebase)
+           (Einsum.einsum_spec n (slr_of (ss_sliced st)) arr).
+Proof. exact contract_sliced. Qed.
+Print Assumptions C06_contract_sliced.
+
+(* ... and when no INNER index is projected (inner sliced indices are sliced, occur in the
+   network, SliceInfo.size = their dimension) it is the mathematical einsum of the UNSLICED
+   network, at the assignment read off idx (a projected OUTPUT index taking its chosen value):
+   contract of a sliced tree = einsum_spec of the unsliced network *)
+Theorem C06_contract_sliced_is_einsum : forall n st arr ebase l r,
+  TreeEval.wf_net n -> TreeEval.full_tree n (Node l r) -> inv (output n) st ->
+  plain (Einsum.dim n) (inns (ss_sliced st)) ->
+  (forall s, In s (inns (ss_sliced st)) -> In (si_ind s) (Einsum.all_ix n)) ->
+  forall idx, length idx = length (output n) ->
+  (forall jp, In jp (output_pos (output n) (ss_sliced st)) ->
+     nth (snd jp) idx 0 < length (sliced_range (si_of (ss_sliced st) (fst jp)))) ->
+  tget (gather_slices (ss_sliced st) (output n) (all_slices n st arr ebase l r)) idx =
+  Einsum.einsum_spec n [] arr (epairs (full_pairs (output n) st idx) ebase).
+Proof. exact contract_sliced_is_einsum. Qed.
+Print Assumptions C06_contract_sliced_is_einsum.
+
+(* non-vacuity: the 3-tensor network above, tree ((0,1),2), sliced c (output), b, d (inner)
+   and projected a:=1 (output): every hypothesis of the end-to-end theorem holds *)
+Example C06_end_to_end_nonvacuous :
+  let n := mkNet [[0;1;2]; [1;2;3]; [3;0;4]] [4;0;2] [(0,2%Z);(1,3%Z);(2,2%Z);(3,2%Z);(4,3%Z)] in
+  let st := run_ops (inputs n) (output n) [(0,2);(1,3);(2,2);(3,2);(4,3)]
+                    [OpRemove 2 None; OpRemove 1 None; OpRemove 0 (Some 1); OpRemove 3 None] in
+  TreeEval.wf_net n /\ TreeEval.full_tree n (Node (Node (Leaf 0) (Leaf 1)) (Leaf 2)) /\ inv (output n) st /\
+  plain (Einsum.dim n) (inns (ss_sliced st)) /\
+  (forall s, In s (inns (ss_sliced st)) -> In (si_ind s) (Einsum.all_ix n)) /\
+  (forall jp, In jp (output_pos (output n) (ss_sliced st)) ->
+     nth (snd jp) [2; 0; 1] 0 < length (sliced_range (si_of (ss_sliced st) (fst jp)))).
+Proof.
+  cbn zeta. split; [|split; [|split; [|split; [|split]]]].
+  - split; [repeat constructor; cbn; intuition lia|]. intros j Hj. cbn in *. intuition (subst; auto 10).
+  - unfold TreeEval.full_tree. cbn. apply Permutation_refl.
+  - apply C06_checker_sound. vm_compute. reflexivity.
+  - vm_compute. repeat constructor.
+  - intros s Hs. vm_compute in Hs. destruct Hs as [<-|[<-|[]]]; vm_compute; auto 10.
+  - intros jp Hjp. vm_compute in Hjp. destruct Hjp as [<-|[<-|[]]]; vm_compute; lia.
 Qed.
